@@ -75,7 +75,8 @@ func checkLeafFidelity(c *Ctx, ev *evaluator) {
 	nCalls := 0
 	var bad []string
 	var badPos token.Pos
-	injective := func(call *ast.CallExpr) bool {
+	var injective func(call *ast.CallExpr, depth int) bool
+	injective = func(call *ast.CallExpr, depth int) bool {
 		fo, _ := objOf(info, call.Fun).(*types.Func)
 		if fo == nil {
 			// conversions T(x), builtins (append, len, make)
@@ -83,6 +84,40 @@ func checkLeafFidelity(c *Ctx, ev *evaluator) {
 		}
 		if fo.Pkg() == nil {
 			return true
+		}
+		// a helper of the same package: what it does with its parameters is held to the same rule
+		if fo.Pkg() == ev.pkg.Types && depth < 3 {
+			if hd := declOfFunc(ev.pkg, fo); hd != nil && hd.Body != nil {
+				params := map[types.Object]bool{}
+				if hd.Type.Params != nil {
+					for _, f := range hd.Type.Params.List {
+						for _, n := range f.Names {
+							params[info.Defs[n]] = true
+						}
+					}
+				}
+				okHelper := true
+				ast.Inspect(hd.Body, func(n ast.Node) bool {
+					inner, ok := n.(*ast.CallExpr)
+					if !ok {
+						return true
+					}
+					uses := false
+					for _, a := range inner.Args {
+						ast.Inspect(a, func(m ast.Node) bool {
+							if id, ok := m.(*ast.Ident); ok && params[info.Uses[id]] {
+								uses = true
+							}
+							return true
+						})
+					}
+					if uses && !injective(inner, depth+1) {
+						okHelper = false
+					}
+					return true
+				})
+				return okHelper
+			}
 		}
 		switch fo.Pkg().Path() + "." + fo.Name() {
 		case "strconv.Quote":
@@ -119,7 +154,7 @@ func checkLeafFidelity(c *Ctx, ev *evaluator) {
 					return true
 				}
 				nCalls++
-				if !injective(call) {
+				if !injective(call, 0) {
 					bad = append(bad, fmt.Sprintf("production %d (%s): %s", i, cs.prod, types.ExprString(call)))
 					if !badPos.IsValid() {
 						badPos = call.Pos()
